@@ -1,53 +1,83 @@
 (** C10 - The governance fee split never distributes more than it is splitting.
     Model: Model/GovSplit.v (method.go: executeSplit2, splitNodeFee, executeAddressSplit,
     executePeerSplit, the fee part of executeCommitDpos2, WithdrawFee; utils.go: splitCurve;
-    tables and constants from Gen/GovConsts.v), tied to the code by the C10 correspondence.
+    tables and constants from Gen/GovConsts.v) on the states of Model/Gov.v (the governance
+    operations of C11, whose state includes the peer pool stored under view-1 that executeSplit2
+    reads), tied to the code by the C10 and C11 correspondences.
 
-    What is proved: the ARITHMETIC, for all inputs, in uint64 with wrap-around and both variants
-    of every height-gated formula, under hypotheses that are stated explicitly:
-      (H1) percentages: A + B <= 100, DappFee <= 100, peer cost <= 100, stored stake cost <= 101
-           (what UpdateGlobalParam / GlobalParam2.Deserialization / SetPeerCost /
-           SetFeePercentage enforce);
-      (H2) [node_ok]: for every peer, the validate positions of its authorizers (owner excluded)
-           fit into the TotalPos recorded in the previous view's pool;
-      (H3) no-wrap sizes: 100 * income < 2^64 (income below 1.8e8 ONG), fee records + income
-           < 2^64, the candidates' stakes add up below 2^64, K < 2^32, curve table entries are
-           uint32.
-    PARTIAL: (H2) is a two-epoch consequence of the C11 invariant pool_pos_consistent (the
-    TotalPos frozen in the pool of view-1 equals the sum of Consensus/Candidate buckets right
-    after the commit, and unAuthorizeForPeer only moves positions into the matching Withdraw
-    bucket).  It is not proved here from the operations (that needs the C11 model extended with
-    the previous view's pool); the driver's oracle checks it on every reachable state it
-    produces.  The statement with (H2) as a hypothesis is [c10_split_le_income_partial]. *)
+    Statement: for every history of governance transactions from a funded genesis and every
+    executeSplit2 run on the reached state, credits + dapp income <= income, the per-address records
+    grow by exactly splitSum (nothing wraps), the recorded fees stay covered by the balance.
+    Hypotheses that remain, and why:
+      (H1) percentages: A + B <= 100, DappFee <= 100, TPeerCost <= 100, stored TStakeCost <= 101.
+           They are enforced where they are SET (UpdateGlobalParam, GlobalParam2.Deserialization,
+           SetPeerCost, SetFeePercentage, the defaults of InitConfig/getPeerAttributes); the
+           parameter-setting operations are not operations of the governance model, so (H1) stays
+           an explicit hypothesis on the parameters the split reads.
+      (H3) sizes outside the contract's control: 100 * income < 2^64 (the ONG that arrives at the
+           contract in one epoch is below 1.8e8 ONG: it is network fee income, not a quantity the
+           contract bounds), fee records + income < 2^64, the candidates' stakes add up below 2^64
+           (each is at most twice the ONT supply), K < 2^32 and curve table entries uint32 (types).
+    (H2) - per peer, the validate positions of its authorizers fit into the TotalPos of the previous
+    view's pool - is no longer a hypothesis: it is an invariant of the operations ([c10_h2_invariant],
+    Proofs/GovPrev*.v). *)
 From Coq Require Import List NArith Bool.
 Import ListNotations.
-From Ont Require Import Lib.AList Gen.GovConsts Model.Gov Model.GovSplit Proofs.GovInv Proofs.GovSplitP.
+From Ont Require Import Lib.AList Gen.GovConsts Model.Gov Model.GovSpec Model.GovSplit Proofs.GovInv
+  Proofs.GovAcct4 Proofs.GovSplitP Proofs.GovSplitR.
 Local Open Scope N_scope.
 
-(** The full statement: for every state REACHABLE by governance transactions, one executeSplit2
-    credits at most the income.  [reachable_split_input] stands for that reachability; what is
-    missing is the proof that it implies [node_ok] for every peer. *)
-Definition c10_full_statement (reachable_split_input :
-    split_env -> list (N * peerv) -> list (N * peerv) -> list (N * (N * N)) -> list ((N * N) * infov) -> Prop) : Prop :=
-  forall e prev cur attrs infos fees balance splitFee o,
-  reachable_split_input e prev cur attrs infos ->
-  execute_split2 e prev cur attrs infos fees balance splitFee = SOk o ->
-  so_splitSum o + so_dapp o <= balance - splitFee.
+(** The full statement. [gov_history_ok] = the hypotheses of C11 on a history (funded genesis,
+    distinct genesis peers, parameter bounds, no transaction signed by the contract address). *)
+Definition c10_full_statement : Prop :=
+  forall par h0 peers ont ops, gov_history_ok par peers ont ops ->
+  let s := run (genesis par h0 peers ont) ops in
+  forall e attrs fees balance splitFee o,
+  execute_split2 e (s_prev s) (s_pool s) attrs (s_infos s) fees balance splitFee = SOk o ->
+  (* H1 *) e_A e + e_B e <= 100 -> e_dappFee e <= 100 -> costs_ok attrs ->
+  (* H3 *) Forall (fun y => y < W32) (e_Yi e) -> e_K e < W32 ->
+           100 * (balance - splitFee) < W64 -> fsum fees + (balance - splitFee) < W64 ->
+           sum_fst (sort_desc (candidates (s_prev s))) < W64 ->
+  so_splitSum o + so_dapp o <= balance - splitFee /\
+  fsum (so_fees o) = fsum fees + so_splitSum o /\
+  splitFee + so_splitSum o <= balance - so_dapp o.
 
-(** (1) One whole split: credits + dapp income <= income; the per-address records grow by
-    exactly splitSum (no record wraps); the recorded fees stay covered by the balance. *)
-Theorem c10_split_le_income_partial : forall e prev cur attrs infos fees balance splitFee o,
+Theorem c10_split_le_income : c10_full_statement.
+Proof.
+  intros par h0 peers ont ops Hh s e attrs fees balance splitFee o H.
+  apply (split_le_income_reachable s e attrs fees balance splitFee o (history_inv5 par h0 peers ont ops Hh) H).
+Qed.
+Print Assumptions c10_split_le_income.
+
+(** (H2) on every reachable state, as executeAddressSplit counts the positions. *)
+Theorem c10_h2_invariant : forall par h0 peers ont ops, gov_history_ok par peers ont ops ->
+  let s := run (genesis par h0 peers ont) ops in
+  forall k pp pre cu, pget k (s_prev s) = Some pp -> is_active (p_status pp) = true ->
+  is_cons (s_prev s) k = SOk pre ->
+  vp_sum (cu || pre) k (p_owner pp) (s_infos s) <= p_total pp.
+Proof. exact history_h2. Qed.
+Print Assumptions c10_h2_invariant.
+
+(** The invariant behind it is preserved by every transaction, valid or not. *)
+Theorem c10_step_preserves : forall (s : state) (h : N) (o : op),
+  Proofs.GovPrev4.inv5 s -> op_ok2 o -> Proofs.GovPrev4.inv5 (fst (step s (h, o))).
+Proof. intros s h o. exact (Proofs.GovPrev4.step_inv5 s (h, o)). Qed.
+Print Assumptions c10_step_preserves.
+
+(** (1) The arithmetic on its own, for ANY input (not only reachable ones), with (H2) as a
+    hypothesis on the candidates of the previous view's pool. *)
+Theorem c10_split_arithmetic : forall e prev cur attrs infos fees balance splitFee o,
   execute_split2 e prev cur attrs infos fees balance splitFee = SOk o ->
   e_A e + e_B e <= 100 -> e_dappFee e <= 100 ->
   Forall (fun y => y < W32) (e_Yi e) -> e_K e < W32 ->
   100 * (balance - splitFee) < W64 -> fsum fees + (balance - splitFee) < W64 ->
-  (forall k, node_ok prev cur attrs infos k) ->
+  Forall (fun wk => node_ok prev cur attrs infos (snd wk)) (sort_desc (candidates prev)) ->
   sum_fst (sort_desc (candidates prev)) < W64 ->
   so_splitSum o + so_dapp o <= balance - splitFee /\
   fsum (so_fees o) = fsum fees + so_splitSum o /\
   splitFee + so_splitSum o <= balance - so_dapp o.
 Proof. exact execute_split2_le_income. Qed.
-Print Assumptions c10_split_le_income_partial.
+Print Assumptions c10_split_arithmetic.
 
 (** (2) One node: whatever is credited to the authorizers and the owner adds up to exactly the
     node's amount - the remainder [nodeAmount - sumAmount] cannot wrap. *)
@@ -86,15 +116,19 @@ Print Assumptions c10_curve_bounded.
 (** (6) withdrawable: "the per-address records add up to splitFee, and splitFee <= ONG balance of
     governance" is preserved by the settlement of an epoch and by WithdrawFee, which pays exactly
     the caller's record. *)
-Theorem c10_settle_keeps_fees_covered : forall e prev cur attrs infos st st',
-  settle e prev cur attrs infos st = SOk st' -> fee_inv st ->
-  e_A e + e_B e <= 100 -> e_dappFee e <= 100 ->
+Theorem c10_settle_keeps_fees_covered : forall par h0 peers ont ops, gov_history_ok par peers ont ops ->
+  let s := run (genesis par h0 peers ont) ops in
+  forall e attrs st st',
+  settle e (s_prev s) (s_pool s) attrs (s_infos s) st = SOk st' -> fee_inv st ->
+  e_A e + e_B e <= 100 -> e_dappFee e <= 100 -> costs_ok attrs ->
   Forall (fun y => y < W32) (e_Yi e) -> e_K e < W32 ->
   100 * (fs_balance st - fs_splitFee st) < W64 -> fs_balance st < W64 ->
-  (forall k, node_ok prev cur attrs infos k) ->
-  sum_fst (sort_desc (candidates prev)) < W64 ->
+  sum_fst (sort_desc (candidates (s_prev s))) < W64 ->
   fee_inv st'.
-Proof. exact settle_fee_inv. Qed.
+Proof.
+  intros par h0 peers ont ops Hh s e attrs st st'.
+  apply (settle_fee_inv_reachable s e attrs st st' (history_inv5 par h0 peers ont ops Hh)).
+Qed.
 Print Assumptions c10_settle_keeps_fees_covered.
 
 Theorem c10_withdraw_fee_keeps_fees_covered : forall st a st',
@@ -127,7 +161,7 @@ Definition ex_infos : list ((N * N) * infov) := [mkInfo 1 8 4000 0 0 500 0 0; mk
 Definition ex_attrs : list (N * (N * N)) := [(1, (40, 101))].
 
 Example c10_nonvacuous :
-  (forall k, node_ok ex_pool ex_pool ex_attrs ex_infos k) /\
+  Forall (fun wk => node_ok ex_pool ex_pool ex_attrs ex_infos (snd wk)) (sort_desc (candidates ex_pool)) /\
   match execute_split2 ex_env ex_pool ex_pool ex_attrs ex_infos [] 1000000000000 0 with
   | SOk o => so_splitSum o <= 1000000000000 /\ 0 < nget 8 (so_fees o) /\ nget 8 (so_fees o) < nget 3 (so_fees o) /\
              fsum (so_fees o) = so_splitSum o /\ 499999999000 < so_splitSum o /\ so_splitSum o <= 500000000000
@@ -135,12 +169,44 @@ Example c10_nonvacuous :
   end.
 Proof.
   split.
-  - intros k p pre cu Hg H1 H2.
+  - apply Forall_forall. intros [w k] _. cbn [snd]. intros p pre cu Hg H1 H2.
     destruct (N.eq_dec k 1) as [->|Hne].
     + vm_compute in Hg, H1, H2. inversion Hg; inversion H1; inversion H2; subst. vm_compute. repeat split; discriminate.
     + assert (Hv : vp_sum (cu || pre) k (p_owner p) ex_infos = 0).
       { unfold ex_infos, mkInfo. cbn [vp_sum]. assert (E : 1 =? k = false) by (apply N.eqb_neq; auto). rewrite E. reflexivity. }
       rewrite Hv. unfold costs_of, ex_attrs. cbn [aget]. assert (E : k =? 1 = false) by (apply N.eqb_neq; auto). rewrite E.
       cbn. repeat split; try discriminate. apply N.le_0_l.
+  - vm_compute. repeat split; discriminate || reflexivity.
+Qed.
+
+(** Non-vacuity of the statement over reachable states: the history of C11's example (a node
+    registers, an authorizer stakes, epochs pass, part is unauthorized and withdrawn) satisfies the
+    hypotheses, and a split on the reached state - peer 8 sharing 60% - succeeds and credits the
+    authorizer (address 8) and the node owner (address 5). *)
+Definition exh_par := mkParams 1 7 100000 INIT_CandidateNum 10000 INIT_PosLimit INIT_Penalty DEFAULT_MIN_AUTHORIZE_POS 0.
+Definition exh_peers : list (N * N * N) :=
+  [(1, 3, 10000); (2, 3, 11000); (3, 4, 12000); (4, 4, 13000); (5, 3, 14000); (6, 4, 15000); (7, 3, 16000)].
+Definition exh_ont : list (N * N) := [(GOV, 91000); (5, 50000); (8, 20000)].
+Definition exh_ops : list (N * op) :=
+  [(500001, ORegister 5 8 5 30000 true true); (500002, OMaxAuth 5 8 5 100000);
+   (500003, OAuthorize 8 8 [(8, 5000)] true); (500004, OCommit 1);
+   (500005, OUnAuthorize 8 8 [(8, 2000)] true); (500006, OCommit 1); (500007, OCommit 1);
+   (500008, OWithdraw 8 8 [(8, 2000)] true)].
+
+Example c10_reachable_nonvacuous :
+  gov_history_ok exh_par exh_peers exh_ont exh_ops /\
+  let s := run (genesis exh_par 500000 exh_peers exh_ont) exh_ops in
+  costs_ok [(8, (40, 101))] /\
+  match execute_split2 ex_env (s_prev s) (s_pool s) [(8, (40, 101))] (s_infos s) [] 1000000000000 0 with
+  | SOk o => 0 < nget 8 (so_fees o) /\ 0 < nget 5 (so_fees o) /\ so_splitSum o <= 1000000000000
+  | _ => False
+  end.
+Proof.
+  split; [|split].
+  - unfold gov_history_ok. split; [vm_compute; reflexivity|]. split; [vm_compute; discriminate|].
+    split; [repeat constructor; cbn; intuition discriminate|].
+    split; [unfold params_ok; cbn; vm_compute; repeat split; discriminate || reflexivity|].
+    repeat constructor; cbn; try discriminate; vm_compute; reflexivity.
+  - intros k. unfold costs_of. cbn [aget]. destruct (k =? 8); cbn; split; discriminate.
   - vm_compute. repeat split; discriminate || reflexivity.
 Qed.
